@@ -398,7 +398,14 @@ def and_(x: _CoreArray, y: _CoreArray) -> _CoreArray:
 
 @eager_propagate
 def gather(data: _CoreArray, indices: _CoreArray, axis: int = 0) -> _CoreArray:
-    return _CoreArray(op.gather(data.var, indices.var, axis=axis))
+    return _CoreArray(op.gather(data.var, _gather_indices(indices.var), axis=axis))
+
+
+def _gather_indices(indices: Var) -> Var:
+    # ONNX Gather only accepts int32 and int64 indices
+    if indices.unwrap_tensor().dtype not in (np.int32, np.int64):
+        return op.cast(indices, to=np.int64)
+    return indices
 
 
 @eager_propagate
@@ -552,7 +559,9 @@ def getitem(
                 raise IndexError("Indexing with boolean array cannot happen")
             return getitem_null(corearray, index)
         else:
-            return _CoreArray(op.gather(corearray.var, index.var, axis=0))
+            return _CoreArray(
+                op.gather(corearray.var, _gather_indices(index.var), axis=0)
+            )
     elif len(index) == 0:
         return corearray.copy()
     elif all(isinstance(i, bool) for i in index):
